@@ -95,10 +95,10 @@ def build(repo, ns, imports, specs, opens="", postlude=""):
             errors.append(f"{sp['name']}: {ex}")
             term = None
         hy = " ".join(f"(h{i} : {h})" for i, h in enumerate(sp.get("hyps", [])))
-        out.append(f"/-- `{sp['file'].split('/')[-1]}:{sp['func']}` -/")
         if term is None:
-            # the anchor is gone: keep an unprovable-by-construction marker out of the file; report through `errors`
+            # the anchor cannot be located: nothing is emitted for it; it is reported through `errors`
             continue
+        out.append(f"/-- `{sp['file'].split('/')[-1]}:{sp['func']}` -/")
         out.append(f"noncomputable def gen_{sp['name']} {sp['binders']} : ℝ := {term}")
         out.append(f"theorem gen_{sp['name']}_eq {sp['binders']} {hy} : gen_{sp['name']} {sp['args']} = {sp['hand']} := by")
         out.append(f"  unfold gen_{sp['name']}")
